@@ -109,6 +109,21 @@ CLAIMED = {
         note=COMMON_NOTE + "Translators (Python ast, own .proto parser, descriptor walker) are trusted but cross-validated on every run against the live objects and a dynamic API sweep in SimNet.",
         tech="machine-checked proof in Coq by reflection over translator-generated tables + dynamic translator validation",
         ref="DESIGN.md §5 C13"),
+    "C14": dict(
+        text="Coq theorems C14_enums_mirror (every model enum paired with a wire enum - pairing derived from the converters and from equal names - has exactly the wire (name, value) pairs modulo the enum prefix and no aliases; "
+             "known finding UpdateCommand excluded, C14_update_command_refuted), C14_fields_mirror (every paired model class has exactly the wire message's field names), both by generic checkers with soundness proved for all tables, applied by vm_compute to tables regenerated on every run; "
+             "C14_from_pb_total / C14_enum_known / C14_enum_unknown / C14_enum_list (conversion total, each field by its converter kind), C14_fix_zero / C14_fix_sign / C14_decimal_rounding / C14_decimal_exponent about an exact model of the float presentation function, "
+             "C14_dict_roundtrip_partial (to_dict/from_dict round-trips the image of from_pb given idempotent converters). Tied by correspondence: random/boundary wire messages of all 48 paired types through the real from_pb/to_dict/from_dict vs the extracted model and an independent oracle; fix_float bit-exact on float32 inputs.",
+        note=COMMON_NOTE + "The translator introspects the imported modules of /repo (enum members, dataclass fields, converter identities, descriptors) and fails closed on an unknown converter kind. PARTIAL in one named respect: idempotence of the float presentation function is a hypothesis of the round-trip theorem, tested bit-exactly on the implementation (not proved); math.log10/round are represented by their mathematical definitions. Known finding F7 (UpdateCommand.INSTALL) is listed in known_findings.json.",
+        tech="machine-checked proof in Coq by reflection over translator-generated tables (generic checkers + soundness lemmas), theorems about an executable conversion and exact float model + bit-exact correspondence",
+        ref="DESIGN.md §5 C14"),
+    "C15": dict(
+        text="Coq theorems C15_all_commands_wf (every *_command method except the two listed passes the static checks; IR regenerated from client.py by a fail-closed ast translator on every run) and C15_wf_sound (for every well-formed command, EVERY environment - every subset of supplied/omitted arguments, every value incl. 0, 0.0, False, '' - and every API version: "
+             "an omitted optional argument leaves all fields of its block default, a supplied one puts its value / tuple component / whole milliseconds into each field of its block with the presence flag true, unmentioned fields stay default), C15_lock_code_flag_refuted (known finding F6), "
+             "C15_round_half_unit, and the legacy encodings as decision tables over the generated IR (cover below 1.1, climate away preset below 1.5). The translator is validated on every run: every command x argument subsets x value classes x API versions on the real APIClient, written frame decoded with api_pb2 and compared with exec of the IR and an oracle; execute_service field table by argument type and version.",
+        note=COMMON_NOTE + "float32 narrowing of float fields is protobuf's (values are compared after narrowing). Known finding F6 (lock_command never sets has_code) is listed in known_findings.json.",
+        tech="machine-checked proof in Coq (locality of disjoint statement blocks; reflection over the translated IR) + exhaustive argument-subset correspondence validating the translator",
+        ref="DESIGN.md §5 C15"),
     "C19": dict(
         text="Coq theorems C19_start_accepted_iff_free, C19_refused_start_is_noop, C19_accepted_start_is_fresh, C19_command_refused / C19_request_refused (no live authenticated session: connection error, nothing written, nothing changed), "
              "C19_endings_clear / C19_forced_disconnect_clears (stop hook, failed connect phase, returned disconnect() clear the client's reference in the same callback) about Model/Client.v (APIClient bookkeeping over a sequence of Model/Conn.v connections). "
